@@ -44,12 +44,16 @@ class C05(Prop):
         if tier == "quick":
             return [Layer("RE-tok(<=4)", lambda: GR.tok_texts(0, 4), policies=nat),
                     Layer("RE-ast(<=5)", lambda: GR.ast_cases(1, 5), policies=nat + ["1"]),
+                    Layer("RE-ast: star over a concatenation of composite factors",
+                          lambda: (("ast", "deep", i) for i in range(len(GR.asts("deep")))), policies=nat + ["1"]),
                     Layer("RE-pairs(<=3)", lambda: GR.pair_cases(3), policies=nat + ["1@used", "2"]),
                     Layer("RE-ast(<=4) combined with the empty-text regex",
                           lambda: (("pairE", c[1], c[2], 1, 0) for c in GR.ast_cases(1, 4)), policies=nat + ["1", "2", "3"])]
         return [Layer("RE-tok(<=5)", lambda: GR.tok_texts(0, 5), policies=nat),
                 Layer("RE-ast(<=6)", lambda: GR.ast_cases(1, 6), policies=nat + ["1"]),
                 Layer("RE-ast(7)", lambda: GR.ast_cases(7, 7), policies=nat),
+                Layer("RE-ast: star over a concatenation of composite factors",
+                      lambda: (("ast", "deep", i) for i in range(len(GR.asts("deep")))), policies=nat + ["1", "2"]),
                 Layer("RE-pairs(<=4)", lambda: GR.pair_cases(4), policies=nat + ["1@used"]),
                 Layer("RE-ast(<=5) combined with the empty-text regex",
                       lambda: (("pairE", c[1], c[2], 1, 0) for c in GR.ast_cases(1, 5)), policies=nat + ["1", "2", "3", "4"])]
